@@ -14,7 +14,8 @@
    finds both two-holder schedules in it. *)
 EXTENDS Naturals, FiniteSets, Sequences, TLC
 
-CONSTANTS Procs, Protocol, InitFiles, MaxCrashes, MaxIno
+CONSTANTS Procs, Protocol, InitFiles, MaxCrashes, MaxIno,
+          AllowClean   \* TRUE: `grog clean` (which removes the workspace directory without taking the lock) may run at any time
 Inos == 1..MaxIno
 None == "none"
 
@@ -93,10 +94,14 @@ Crash(p) == /\ crashes < MaxCrashes /\ p \in alive /\ pc[p] # "done"
             /\ fd' = [fd EXCEPT ![p] = 0]
             /\ UNCHANGED <<path, content, nextIno, seen, foreign>>
 
+\* `grog clean`: os.RemoveAll of the directory holding the lock file, by a process that is not a contender
+Clean == /\ AllowClean /\ path # 0 /\ path' = 0
+         /\ UNCHANGED <<content, owner, nextIno, pc, fd, seen, alive, crashes, foreign>>
+
 Step(p) == Open(p) \/ Flock(p) \/ Verify(p) \/ Write(p) \/ Read(p) \/ Sleep(p) \/ ExitCS(p) \/ UnlockRemove(p) \/ UnlockClose(p)
            \/ PCreate(p) \/ PWrite(p) \/ PRead(p) \/ PProbe(p) \/ PRemove(p) \/ PUnlock(p)
 Terminal == \A p \in Procs : pc[p] \in {"done", "crashed"}
-Next == (\E p \in Procs : Step(p) \/ Crash(p)) \/ (Terminal /\ UNCHANGED vars)
+Next == (\E p \in Procs : Step(p) \/ Crash(p)) \/ Clean \/ (Terminal /\ UNCHANGED vars)
 Spec == Init /\ [][Next]_vars
 FairSpec == Spec /\ \A p \in Procs : WF_vars(Step(p))
 
